@@ -14,7 +14,7 @@
 #[path = "../libwriters.rs"]
 mod libwriters;
 use libwriters::*;
-use pnaverif::refdec::{self as rd, REntry};
+use pnaverif::refdec::{self as rd};
 use pnaverif::util::*;
 use std::io::{self, Read, Write};
 
@@ -43,15 +43,36 @@ struct Ctx {
     phsf: Vec<u8>,
     stream: Vec<u8>,
 }
-/// the encryption contexts of an archive in order (top level: encrypted file entries and solid streams)
+/// the encryption contexts of an archive in order (top level: encrypted file entries and solid
+/// streams).  A loose walk over the chunks, so that a malformed PHSF or entry is still looked at.
 fn contexts(parts: &[Vec<u8>]) -> Result<Vec<Ctx>, String> {
-    let es = rd::strict_decode(parts).map_err(|(w, d)| format!("{}: {}", w, d))?;
-    let mut out = Vec::new();
-    for e in es {
-        match e {
-            REntry::N(n) if n.enc != 0 => out.push(Ctx { enc: n.enc, mode: n.mode, comp: n.comp, solid: false, phsf: n.phsf.unwrap_or_default(), stream: n.data.concat() }),
-            REntry::S(s) if s.enc != 0 => out.push(Ctx { enc: s.enc, mode: s.mode, comp: s.comp, solid: true, phsf: s.phsf.unwrap_or_default(), stream: s.data.concat() }),
-            _ => {}
+    let mut out: Vec<Ctx> = Vec::new();
+    let mut cur: Option<Ctx> = None;
+    for p in parts {
+        let cs = rd::part_chunks(p).map_err(|(w, d)| format!("{}: {}", w, d))?;
+        for c in cs {
+            match &c.ty {
+                b"FHED" if c.data.len() >= 6 => cur = Some(Ctx { enc: c.data[4], mode: c.data[5], comp: c.data[3], solid: false, phsf: vec![], stream: vec![] }),
+                b"SHED" if c.data.len() == 5 => cur = Some(Ctx { enc: c.data[3], mode: c.data[4], comp: c.data[2], solid: true, phsf: vec![], stream: vec![] }),
+                b"PHSF" => {
+                    if let Some(x) = cur.as_mut() {
+                        x.phsf = c.data.clone();
+                    }
+                }
+                b"FDAT" | b"SDAT" => {
+                    if let Some(x) = cur.as_mut() {
+                        x.stream.extend_from_slice(&c.data);
+                    }
+                }
+                b"FEND" | b"SEND" => {
+                    if let Some(x) = cur.take() {
+                        if x.enc != 0 {
+                            out.push(x);
+                        }
+                    }
+                }
+                _ => {}
+            }
         }
     }
     Ok(out)
